@@ -72,7 +72,9 @@ func C16(c *Ctx) {
 	r.Explanation = "(A2) every write of a module's Params section is guarded, in the writing function, by Params.Validate()==nil on the very value that is marshalled; (A1) only keeper SetParams and the v3 migration write that section; " +
 		"(A8) no call site of a params writer (SetParams) drops its error, in handlers, genesis import or migrations; (A7) Params.Validate reads every field of the Params struct, hands it to a validator that has a value-dependent rejecting branch, and contains the cross-field rejections (default<=max, signers>=min accepts); MsgUpdateParams.ValidateBasic reaches Validate and propagates its error; " +
 		"(A6) no caching: no keeper struct or package variable has a Params type, and no keeper method stores through its receiver, so every use reads the store. Decides these structural necessary conditions for all inputs and call sites; numeric bounds inside validators are only checked for presence."
-	r.Rules = []string{"A1.params-writers", "A2.params-validated", "A8.setparams-error", "A7.validate-fields", "A7.validate-rule", "A7.validate-cross-field", "A7.update-validatebasic", "A3.update-stores", "A6.no-params-cache", "A7.fee-formula", "TS.status-transition", "A2.decorator-checks", "A2.purchase-guards", "A9.uint64-range", "A7.max-purchasable"}
+	r.Rules = []string{"A1.params-writers", "A2.params-validated", "A8.setparams-error", "A7.validate-fields", "A7.validate-rule", "A7.validate-cross-field", "A7.update-validatebasic", "A3.update-stores", "A6.no-params-cache", "A7.fee-formula", "TS.status-transition", "A2.decorator-checks", "A2.purchase-guards", "A9.uint64-range", "A7.max-purchasable", "A7.export-fields"}
+	// a voted value stays in force across an export/import: what is exported as Params is the stored value on every path
+	exportGenesisArgs(c, "A7.export-fields|params", false)
 	// a parameter takes effect as set: the fee split uses the stored rate itself
 	feeFormula(c)
 	// ... and the purchase-order thresholds in force decide every tally (the transition rules of C03: an order is settled by
